@@ -31,6 +31,24 @@ pub fn dump() {
         units.insert(n.to_string(), serde_json::json!((*u * 1i64).total_nanoseconds().to_string()));
     }
     m.insert("UNIT_NS".into(), serde_json::Value::Object(units));
+    // f64 constants of src/lib.rs behind the JD / MJD views (C17), as IEEE-754 bit patterns, and their sum as
+    // the code forms it (`MJD_J1900 + MJD_OFFSET`, an f64 addition) — tools/gen_float.py writes Gen/ViewsConsts.lean
+    let mut vf = serde_json::Map::new();
+    macro_rules! put_fbits {
+        ($name:ident) => {
+            vf.insert(stringify!($name).to_string(), serde_json::json!(format!("{:016x}", ($name as f64).to_bits())));
+        };
+    }
+    put_fbits!(MJD_J1900);
+    put_fbits!(MJD_OFFSET);
+    put_fbits!(MJD_J2000);
+    put_fbits!(JD_J1900);
+    put_fbits!(JD_J2000);
+    vf.insert(
+        "MJD_J1900_PLUS_MJD_OFFSET".to_string(),
+        serde_json::json!(format!("{:016x}", (std::hint::black_box(MJD_J1900) + std::hint::black_box(MJD_OFFSET)).to_bits())),
+    );
+    m.insert("VIEWS_F64_CONSTS".into(), serde_json::Value::Object(vf));
     crate::props::dump_consts(&mut m);
     println!("{}", serde_json::to_string_pretty(&serde_json::Value::Object(m)).unwrap());
 }
